@@ -8,6 +8,8 @@ import (
 	"net/http/httptest"
 	"os"
 	"path/filepath"
+	"sync"
+	"time"
 
 	"github.com/ahimsalabs/durable-streams-go/durablestream"
 	"github.com/ahimsalabs/durable-streams-go/durablestream/memorystorage"
@@ -19,9 +21,38 @@ import (
 // Kinds of store environments.
 var Kinds = []string{"memory", "sqlite-file", "sqlite-mem", "sqlite-batch2", "sqlite-batch5", "durable"}
 
+// Metrics records the SQLite store's MetricsHook callbacks (one recorder per store).
+type Metrics struct {
+	mu    sync.Mutex
+	Calls []MetricCall
+}
+
+// MetricCall is one MetricsHook callback.
+type MetricCall struct {
+	Kind  string
+	Count int
+	Err   bool
+}
+
+func (m *Metrics) add(c MetricCall) { m.mu.Lock(); m.Calls = append(m.Calls, c); m.mu.Unlock() }
+func (m *Metrics) OnAppend(d time.Duration, err error) { m.add(MetricCall{"append", 0, err != nil}) }
+func (m *Metrics) OnRead(d time.Duration, n int, err error) { m.add(MetricCall{"read", n, err != nil}) }
+func (m *Metrics) OnSaveOffset(d time.Duration, err error) { m.add(MetricCall{"save", 0, err != nil}) }
+func (m *Metrics) OnLoadOffset(d time.Duration, err error) { m.add(MetricCall{"load", 0, err != nil}) }
+
+// Take returns and clears the callbacks recorded so far.
+func (m *Metrics) Take() []MetricCall {
+	m.mu.Lock()
+	defer m.mu.Unlock()
+	c := m.Calls
+	m.Calls = nil
+	return c
+}
+
 // Env is a set of separately created stores of one kind.
 type Env struct {
 	Kind    string
+	Metrics []*Metrics // per store; nil entries for stores without a metrics hook
 	Stores  []eb.EventStore
 	Partial bool // unlimited Read may return a non-empty prefix (server pages)
 	cleanup []func()
@@ -46,6 +77,9 @@ func NewEnv(kind, dir string, n int, chunk int) (*Env, error) {
 		case "sqlite-file", "sqlite-batch2", "sqlite-batch5":
 			p := filepath.Join(dir, fmt.Sprintf("db-%d-%d.sqlite", envCounter, i))
 			var opts []sqlite.Option
+			mh := &Metrics{}
+			opts = append(opts, sqlite.WithMetricsHook(mh))
+			e.Metrics = append(e.Metrics, mh)
 			if kind == "sqlite-batch2" {
 				opts = append(opts, sqlite.WithStreamBatchSize(2))
 			}
